@@ -421,6 +421,11 @@ func (rl *Shell) selfInsert() {
 
 	key := rl.Keys.Caller()
 
+	// No key to insert (the command was not ran by one).
+	if len(key) == 0 {
+		return
+	}
+
 	// Handle autopair insertion (for the closer only)
 	searching, _, _ := rl.completer.NonIncrementallySearching()
 	isearch := rl.Keymap.Local() == keymap.Isearch
@@ -1274,7 +1279,7 @@ func (rl *Shell) abort() {
 
 	if rl.Config.GetBool("echo-control-characters") {
 		key := rl.Keys.Caller()
-		if key[0] == rune(inputrc.Unescape(`\C-C`)[0]) {
+		if len(key) > 0 && key[0] == rune(inputrc.Unescape(`\C-C`)[0]) {
 			quoted, _ := strutil.Quote(key[0])
 			fmt.Print(string(quoted))
 		}
@@ -1304,7 +1309,7 @@ func (rl *Shell) doLowercaseVersion() {
 	}
 
 	// Undefined behavior if the key is already lowercase.
-	if unicode.IsLower(keys[0]) {
+	if len(keys) == 0 || unicode.IsLower(keys[0]) {
 		return
 	}
 
